@@ -60,3 +60,103 @@ Print Assumptions C20_accepted_has_parameters.
 Print Assumptions C20_paramset_consistent.
 Print Assumptions C20_shapefactor_size_conflict.
 Print Assumptions C20_override_lengths_checked.
+
+(* ---- the other half (WfTotal.v): construction is total up to pyhf's own exceptions; accepted iff well-formed.
+   No premise on the specification, not even the schema-level ones. ---- *)
+From Coq Require Import Bool.
+Require Import PV.Ref PV.RefineParams PV.WfTotal.
+Theorem C20_build_never_python_exception : forall N (sp : spec N) s, build N sp <> Err (EPy s).
+Proof. exact build_never_python_exception. Qed.
+Theorem C20_build_error_is_pyhf_exception : forall N (sp : spec N) e, build N sp = Err e -> is_pyhf_exception e = true.
+Proof. exact build_error_is_pyhf_exception. Qed.
+Theorem C20_build_char : forall N (sp : spec N),
+  match build N sp with Ok _ => wf_spec N sp = true | Err e => is_pyhf_exception e = true /\ wf_spec N sp = false end.
+Proof. exact build_char. Qed.
+Theorem C20_accepted_implies_wf : forall N (sp : spec N) md, build N sp = Ok md -> wf_spec N sp = true.
+Proof. exact accepted_implies_wf. Qed.
+Theorem C20_wf_implies_accepted : forall N (sp : spec N), wf_spec N sp = true -> exists md, build N sp = Ok md.
+Proof. exact wf_implies_accepted. Qed.
+Theorem C20_refused_iff_not_wf : forall N (sp : spec N), (exists e, build N sp = Err e) <-> wf_spec N sp = false.
+Proof. exact refused_iff_not_wf. Qed.
+Theorem C20_refused_with_pyhf_exception : forall N (sp : spec N), wf_spec N sp = false ->
+  exists e, build N sp = Err e /\ is_pyhf_exception e = true.
+Proof. exact refused_with_pyhf_exception. Qed.
+(* wf_spec is the conjunction of the consistency classes *)
+Theorem C20_wf_spec_classes : forall N (sp : spec N), wf_spec N sp =
+  wf_channels_distinct N sp && wf_samples_distinct N sp && wf_modifiers_distinct N sp && wf_shapesys_unique N sp && wf_sample_lengths N sp &&
+  wf_modifier_lengths N sp && wf_staterror_masks N sp && wf_one_config_per_parameter N sp && wf_requirements_agree N sp &&
+  wf_settings_present N sp && wf_overrides_fit N sp && wf_has_parameters N sp && wf_poi N sp.
+Proof. reflexivity. Qed.
+(* per class, whatever else the specification contains *)
+Theorem C20_dup_channel_refused : forall N (sp : spec N), ~ NoDup (map c_name (channels sp)) -> refused N sp.
+Proof. exact dup_channel_refused. Qed.
+Theorem C20_dup_sample_refused : forall N (sp : spec N) c, In c (channels sp) -> ~ NoDup (map s_name (c_samples c)) -> refused N sp.
+Proof. exact dup_sample_refused. Qed.
+Theorem C20_dup_modifier_refused : forall N (sp : spec N) c s, In c (channels sp) -> In s (c_samples c) ->
+  ~ NoDup (map mkey (s_mods s)) -> refused N sp.
+Proof. exact dup_modifier_refused. Qed.
+Theorem C20_shapesys_reuse_refused : forall N (sp : spec N), ~ NoDup (shapesys_names_listed N sp) -> refused N sp.
+Proof. exact shapesys_reuse_refused. Qed.
+Theorem C20_sample_length_mismatch_refused : forall N (sp : spec N) cn sn s, In cn (cfg_channels N sp) -> In sn (cfg_samples N sp) ->
+  cell N sp cn sn = Some s -> length (s_data s) <> nbins N sp cn -> refused N sp.
+Proof. exact sample_length_mismatch_refused. Qed.
+Theorem C20_modifier_length_mismatch_refused : forall N (sp : spec N) t f cn sn k m,
+  (t = Histosys /\ (f = mdlo N \/ f = mdhi N)) \/ ((t = Shapesys \/ t = Staterror) /\ f = mdlist N) ->
+  In k (mods_of (cfg_modifiers N sp) t) -> In sn (cfg_samples N sp) -> In cn (cfg_channels N sp) ->
+  cellmod N sp cn sn k = Some m -> length (f m) <> nbins N sp cn -> refused N sp.
+Proof. exact modifier_length_mismatch_refused. Qed.
+Theorem C20_staterror_mask_mismatch_refused : forall N (sp : spec N), wf_staterror_masks N sp = false -> refused N sp.
+Proof. exact staterror_mask_mismatch_refused. Qed.
+Theorem C20_shared_shapefactor_size_refused : forall N (sp : spec N) c s m c' s' m', listed N sp c s m -> listed N sp c' s' m' ->
+  m_type m = Shapefactor -> m_type m' = Shapefactor -> m_name m = m_name m' -> chan_nbins N c <> chan_nbins N c' -> refused N sp.
+Proof. exact shared_shapefactor_size_refused. Qed.
+Theorem C20_conflicting_paramset_refused : forall N (sp : spec N) name rs,
+  In (name, rs) (required_all N sp (cfg_channels N sp) (cfg_samples N sp) (cfg_modifiers N sp)) -> agree_all N rs = false -> refused N sp.
+Proof. exact conflicting_paramset_refused. Qed.
+Theorem C20_duplicate_parameter_config_refused : forall N (sp : spec N), ~ NoDup (map pc_name (parameters sp)) -> refused N sp.
+Proof. exact duplicate_parameter_config_refused. Qed.
+Theorem C20_override_misfit_refused : forall N (sp : spec N) name r0 rs,
+  In (name, r0 :: rs) (required_all N sp (cfg_channels N sp) (cfg_samples N sp) (cfg_modifiers N sp)) ->
+  overrides_fit N sp name r0 = false -> refused N sp.
+Proof. exact override_misfit_refused. Qed.
+Theorem C20_missing_setting_refused : forall N (sp : spec N) name r0 rs,
+  In (name, r0 :: rs) (required_all N sp (cfg_channels N sp) (cfg_samples N sp) (cfg_modifiers N sp)) ->
+  settings_present N sp name r0 = false -> refused N sp.
+Proof. exact missing_setting_refused. Qed.
+Theorem C20_lumi_without_settings_refused : forall N (sp : spec N) c s m, listed N sp c s m -> m_type m = Lumi ->
+  find_user N sp (m_name m) = None -> refused N sp.
+Proof. exact lumi_without_settings_refused. Qed.
+Theorem C20_undefined_poi_refused : forall N (sp : spec N) nm, poi sp = Some nm -> nm <> ""%string ->
+  (forall c s m, listed N sp c s m -> m_name m <> nm) -> refused N sp.
+Proof. exact poi_not_a_modifier_refused. Qed.
+Theorem C20_nonscalar_poi_refused : forall N (sp : spec N) nm r0 rs, poi sp = Some nm -> nm <> ""%string ->
+  In (nm, r0 :: rs) (required_all N sp (cfg_channels N sp) (cfg_samples N sp) (cfg_modifiers N sp)) -> 1 < r_n N r0 -> refused N sp.
+Proof. exact nonscalar_poi_refused. Qed.
+Theorem C20_no_parameters_refused : forall N (sp : spec N),
+  required_all N sp (cfg_channels N sp) (cfg_samples N sp) (cfg_modifiers N sp) = [] -> refused N sp.
+Proof. exact no_parameters_refused. Qed.
+
+Print Assumptions C20_build_never_python_exception.
+Print Assumptions C20_build_error_is_pyhf_exception.
+Print Assumptions C20_build_char.
+Print Assumptions C20_accepted_implies_wf.
+Print Assumptions C20_wf_implies_accepted.
+Print Assumptions C20_refused_iff_not_wf.
+Print Assumptions C20_refused_with_pyhf_exception.
+Print Assumptions C20_wf_spec_classes.
+Print Assumptions C20_dup_channel_refused.
+Print Assumptions C20_dup_sample_refused.
+Print Assumptions C20_dup_modifier_refused.
+Print Assumptions C20_shapesys_reuse_refused.
+Print Assumptions C20_sample_length_mismatch_refused.
+Print Assumptions C20_modifier_length_mismatch_refused.
+Print Assumptions C20_staterror_mask_mismatch_refused.
+Print Assumptions C20_shared_shapefactor_size_refused.
+Print Assumptions C20_conflicting_paramset_refused.
+Print Assumptions C20_duplicate_parameter_config_refused.
+Print Assumptions C20_override_misfit_refused.
+Print Assumptions C20_missing_setting_refused.
+Print Assumptions C20_lumi_without_settings_refused.
+Print Assumptions C20_undefined_poi_refused.
+Print Assumptions C20_nonscalar_poi_refused.
+Print Assumptions C20_no_parameters_refused.
